@@ -11,6 +11,10 @@ def sh(cmd, cwd=None, timeout=1800):
 
 def main():
     mid, prop, patch, demo, demodir, pattern = sys.argv[1:7]
+    race = ''
+    if pattern.startswith('-race'):
+        race, pattern = '-race ', pattern[len('-race'):].strip()
+        ENV.pop('CGO_ENABLED', None)
     checks = sys.argv[7:] or [prop]
     out = '/verif/seeded/%s' % mid
     os.makedirs(out, exist_ok=True)
@@ -23,7 +27,7 @@ def main():
     try:
         demo_dst = os.path.join(wt, demodir, 'zz_demo_%s_test.go' % re.sub(r'\W', '_', mid))
         shutil.copy(demo, demo_dst)
-        rc, log = sh('go test -count=1 -run %s ./%s/' % (pattern, demodir), cwd=wt)
+        rc, log = sh('go test %s-count=1 -run %s ./%s/' % (race, pattern, demodir), cwd=wt)
         meta['confirmed']['demo_passes_without_change'] = (rc == 0)
         os.remove(demo_dst)
         rc, log = sh('git apply %s' % os.path.abspath(patch), cwd=wt)
@@ -32,7 +36,7 @@ def main():
         meta['confirmed']['suite_passes_with_change'] = (rc == 0)
         if rc: meta['confirmed']['suite_log'] = log[-1500:]
         shutil.copy(demo, demo_dst)
-        rc, log = sh('go test -count=1 -run %s ./%s/' % (pattern, demodir), cwd=wt)
+        rc, log = sh('go test %s-count=1 -run %s ./%s/' % (race, pattern, demodir), cwd=wt)
         meta['confirmed']['demo_fails_with_change'] = (rc != 0)
     finally:
         sh('git -C /repo worktree remove --force %s' % wt)
